@@ -291,6 +291,8 @@ def write_evidence(prop_id, cfg, tier, seed, res, scope, obligations, fails, kf,
                     res['scan']['external_body'], res['scan']['external'], res['scan']['assume_specification'], res['scan']['axiom'],
                     res['scan']['uninterp'], res['scan']['assume'], res['scan']['admit'])],
             samples=samples,
+            assume_statements=res.get('assume_sites', []),
+            trusted_functions_with_assumed_contracts=res.get('trusted_fns', []),
             functions_under_contract=sorted(scope_paths),
             functions_under_contract_n=len(scope_paths),
             known_finding_obligations=[dict(unit=f['unit'], obligation=f['oid'], what=k.get('what')) for f, k in kf],
